@@ -42,6 +42,9 @@ type loginPlan struct {
 	// bytes 0x00; "spaces-end": the last two bytes are blanks (a nonce is binary data: every byte counts)
 	NonceShape string `json:"nonce_shape,omitempty"`
 	Remote     int    `json:"remote"`
+	// NoDeadline (with CancelAtMs / CancelAtStep): the caller's context has no deadline of its own (context.WithCancel):
+	// the cancellation is all that ends it.
+	NoDeadline bool `json:"no_deadline,omitempty"`
 	// Deaf (C08): the server accepts the connection and stops reading before the login begins; its socket buffer
 	// takes DeafWindow more bytes. It never answers, so the login cannot succeed - and must be back when its context
 	// expires, whether it is waiting for a reply or for room to write.
@@ -758,6 +761,10 @@ func runLogin(p *loginPlan, schedSeed uint64, replay []simrt.Choice, lenient, ke
 			})
 		}
 		ctx, cancel := simrt.WithTimeout(context.Background(), 30*time.Second)
+		if p.NoDeadline && (p.CancelAtMs > 0 || p.CancelAtStep > 0) && obs == mainObs {
+			cancel()
+			ctx, cancel = simrt.WithCancel(context.Background())
+		}
 		defer cancel()
 		obs.deadline = simrt.SimNow() + 30*time.Second
 		if p.CancelAtMs > 0 && obs == mainObs {
@@ -1047,6 +1054,7 @@ func c08Variants(r *Rand, p *loginPlan, forced int) {
 		} else {
 			p.CancelAtMs = Pick(r, []int{1, 5, 100, 10000})
 		}
+		p.NoDeadline = r.Pct(50)
 		either()
 	}
 }
